@@ -66,7 +66,7 @@ ASSUMPTIONS = [
     "concurrent analyses do not interfere (false of the unchanged code: known finding C18-parallel-analysis-races; T2 serialises _extract_metadata)",
     "project names are pairwise distinct in T2, so get_candidates(None) order is the order of _add_distribution calls",
 ]
-LEVEL_TEXT = ("Fourteen theorems over a Gallina model of _find_all_source_dirs (pruned os.walk on string paths) and of the two-pass, "
+LEVEL_TEXT = ("Fifteen theorems over a Gallina model of _find_all_source_dirs (pruned os.walk on string paths) and of the two-pass, "
               "optionally threaded collection, for ALL trees, excluded paths, marker sets, analysis outcomes and schedules: soundness "
               "(everything offered is a project root by path components, unguarded), exactness inside two decidable guards, exact "
               "characterisation of the code with character-prefix exclusion, root eligibility, independence of the listing order "
